@@ -1,1 +1,3 @@
+pub mod names;
 pub mod soup;
+pub mod syntax;
